@@ -273,6 +273,15 @@ func (p *uPacketPacker) appendInitialPacketPayload(buffer *packetBuffer, header 
 		}
 	}
 
+	// [UQUIC] Header protection samples 16 bytes of ciphertext starting 4 bytes after the
+	// start of the packet number, so packet number plus payload must be at least 4 bytes
+	// (RFC 9001, section 5.4.2). quic-go's appendLongHeaderPacket pads for that; a
+	// spec-driven Initial whose frame builder returns a tiny payload (a PTO probe carrying
+	// only a PING) did not, and went out as a packet no receiver can unprotect.
+	if minPayload := 4 - int(pnLen); len(uPayload) < minPayload {
+		uPayload = append(uPayload, make([]byte, minPayload-len(uPayload))...)
+	}
+
 	header.Length = pnLen + protocol.ByteCount(sealer.Overhead()) + protocol.ByteCount(len(uPayload))
 
 	startLen := len(buffer.Data)
